@@ -33,6 +33,7 @@ const (
 )
 
 type rewriter struct {
+	gotos   map[string]bool // labels targeted by a goto in the current function
 	fset    *token.FileSet
 	file    string
 	usedVrt bool
@@ -232,6 +233,15 @@ func (rw *rewriter) rewriteFile(path string) ([]byte, error) {
 			continue
 		}
 		if fd.Body != nil {
+			// labels that are targets of a goto in this function (a
+			// rewritten select must keep such a label at its start)
+			rw.gotos = map[string]bool{}
+			ast.Inspect(fd.Body, func(n ast.Node) bool {
+				if b, ok := n.(*ast.BranchStmt); ok && b.Tok == token.GOTO && b.Label != nil {
+					rw.gotos[b.Label.Name] = true
+				}
+				return true
+			})
 			rw.block(fd.Body)
 		}
 	}
@@ -785,12 +795,40 @@ func (rw *rewriter) selectStmt(sel *ast.SelectStmt, label *ast.Ident) []ast.Stmt
 			Args: []ast.Expr{&ast.BasicLit{Kind: token.STRING, Value: `"vrt: unreachable select dispatch"`}}}},
 	}})
 	var sw ast.Stmt = &ast.SwitchStmt{Tag: k, Body: &ast.BlockStmt{List: cases}}
+	var whole ast.Stmt
 	if label != nil {
-		sw = &ast.LabeledStmt{Label: label, Stmt: sw}
+		// "break L" in the case bodies must leave the dispatch switch,
+		// "goto L" must restart the whole statement (probes included):
+		// the breaks get a label of their own on the switch, the original
+		// label stays at the start when some goto targets it.
+		brk := ast.NewIdent(fmt.Sprintf("_vs%dbrk", id))
+		nbrk := 0
+		for _, c := range cases {
+			ast.Inspect(c, func(n ast.Node) bool {
+				switch x := n.(type) {
+				case *ast.FuncLit:
+					return false
+				case *ast.BranchStmt:
+					if x.Tok == token.BREAK && x.Label != nil && x.Label.Name == label.Name {
+						x.Label = brk
+						nbrk++
+					}
+				}
+				return true
+			})
+		}
+		if nbrk > 0 {
+			sw = &ast.LabeledStmt{Label: brk, Stmt: sw}
+		}
 	}
 	pre = append(pre, sw)
+	whole = &ast.BlockStmt{List: pre}
+	if label != nil && rw.gotos[label.Name] {
+		rw.stats["select-goto-label"]++
+		whole = &ast.LabeledStmt{Label: label, Stmt: whole}
+	}
 
-	return []ast.Stmt{&ast.BlockStmt{List: pre}}
+	return []ast.Stmt{whole}
 }
 
 // sleeps reports whether the statement directly calls time.Sleep.
